@@ -18,7 +18,7 @@ from pjplan import Task, WBS, Resource, ForwardScheduler, BackwardScheduler
 
 REAL_DATETIME = datetime
 DAY_US = 86400_000_000
-ALLOWED_CAPS = {0, 4, 8, 16, 32, 64, 128}      # eighths: 0, .5, 1, 2, 4, 8, 16 units
+ALLOWED_CAPS = {0, 4, 8, 16, 32, 64, 128, 256}      # eighths: 0, .5, 1, 2, 4, 8, 16, 32 units (32: day shares of half seconds)
 
 
 def set_clock(now_us):
@@ -130,7 +130,7 @@ def snapshot(wbs, extra_tasks):
     return snap
 
 
-def tabulate(res, lo_day, n_days, offgrid=False, notes=None):
+def tabulate(res, lo_day, n_days, offgrid=False, notes=None, tod_ok=False):
     """capacity of the resource for days lo..lo+n-1 plus weekly patterns before/after.  The capacity of a
     day is what the resource's CALENDAR answers (None = 0); the resource itself must report the same."""
     def cap(day, tod=0):
@@ -150,7 +150,9 @@ def tabulate(res, lo_day, n_days, offgrid=False, notes=None):
         return e
     tab = [cap(d) for d in range(lo_day, lo_day + n_days)]
     for d in range(lo_day, lo_day + n_days, 3):
-        if cap(d, 13 * 3600_000_000 + 7) != tab[d - lo_day]:
+        # (tod_ok: the stream of calendars whose validity bounds carry a time of day - the capacity of a day is then,
+        # by the reading of DESIGN.md section 1, the calendar's answer for the day's midnight)
+        if not tod_ok and cap(d, 13 * 3600_000_000 + 7) != tab[d - lo_day]:
             raise OffGrid('capacity depends on the time of day')
     pre = [None] * 7
     post = [None] * 7
@@ -293,12 +295,31 @@ def run_case(case):
             # robustness stream (C14): inputs outside the domain of the model (e.g. calendars whose validity bounds
             # carry a time of day); only the outcome class of calc is observed
             kw = {'resources': list(supplied.values()), 'balance_resources': case['balance']}
+            if case.get('default_estimate') is not None:
+                kw['default_estimate'] = num(case['default_estimate'], False)
             sched0 = ForwardScheduler(start=from_us(case['pbound']), **kw) if fwd else BackwardScheduler(end=from_us(case['pbound']), **kw)
             signal.signal(signal.SIGALRM, _alarm)
             signal.alarm(3 if BUDGET['timeouts'] >= 2 else 30)
             try:
-                sched0.calc(wbs)
+                sch0 = sched0.calc(wbs)
                 res = {'outcome_only': True, 'outcome': 0}
+                # the literal clauses that need no model: every task has both dates (C06); per task the reserved amounts
+                # (C04: they sum to the remaining work of a working leaf, nothing for milestones and summaries)
+                rt = list(sch0.schedule.tasks)
+                res['all_dated'] = all(t.start is not None and t.end is not None for t in rt)
+                booked = {}
+                for r in sch0.resource_usage.rows():
+                    booked[id(r.task)] = booked.get(id(r.task), Fraction(0)) + Fraction(r.units)
+                src = {t.id: t for t in wbs.tasks}
+                work = []
+                for t in rt:
+                    o = src.get(t.id)
+                    work.append({'id': t.id, 'leaf': len(t.children) == 0, 'milestone': bool(t.milestone),
+                                 'user_start': o is not None and o.start is not None, 'user_end': o is not None and o.end is not None,
+                                 'est': None if o is None or o.estimate is None else str(Fraction(o.estimate)),
+                                 'spent': None if o is None or o.spent is None else str(Fraction(o.spent)),
+                                 'reserved': str(booked.get(id(t), Fraction(0)))})
+                res['work'] = work
             except Timeout:
                 BUDGET['timeouts'] += 1
                 res = {'outcome_only': True, 'outcome': 20}
@@ -427,7 +448,7 @@ def run_case(case):
             for r in sch.resources:
                 actual[r.name] = r
         notes = []
-        out['rs'] = [tabulate(actual.get(n) or supplied.get(n) or Resource(n), lo, n_days, offgrid, notes) for n in res_names]
+        out['rs'] = [tabulate(actual.get(n) or supplied.get(n) or Resource(n), lo, n_days, offgrid, notes, bool(case.get('tod_calendars'))) for n in res_names]
         if notes:
             out['resource_differs_from_calendar'] = notes[:3]
 
@@ -439,6 +460,21 @@ def run_case(case):
             try:
                 again.append(observe_schedule(sched.calc(wbs), res_index))          # same scheduler object again
                 again.append(observe_schedule(make().calc(wbs), res_index))         # fresh scheduler
+                # a calculation that RAISES in the middle of the pass (a cycle closing through the hierarchy, built from
+                # the ids of this WBS) must leave nothing behind that influences a later calculation
+                try:
+                    ids3 = [t.id for t in members][:3] + [90001, 90002, 90003]
+                    pw = WBS()
+                    pp = pw // Task(ids3[0], 'p')
+                    pa = pp // Task(ids3[1], 'a', estimate=1)
+                    pb = pw // Task(ids3[2], 'b', estimate=1)
+                    pb.predecessors.append(pa)
+                    pp.predecessors.append(pb)
+                    make().calc(pw)
+                    out['poison_returned'] = True
+                except RuntimeError:
+                    pass
+                again.append(observe_schedule(make().calc(wbs), res_index))         # fresh scheduler after the failed one
                 if fwd and case.get('now2') is not None:
                     set_clock(case['now2'])
                     try:
